@@ -248,6 +248,8 @@ def do_fs(op, a):
         return out(lambda: list(FindInPaths(a[0] or None).find(a[1], as_sid=False)))
     if op == 'find_all':
         return out(lambda: sorted(FindInAll().find(a[0], as_sid=False)))
+    if op == 'find_all_one':
+        return out(lambda: t_opt(FindInAll().find_one(a[0], as_sid=False)))
     if op == 'find_all_raw':
         return out(lambda: list(FindInAll().find(a[0], as_sid=False)))
     if op == 'sid_exists':
